@@ -12,6 +12,7 @@ import (
 	"path"
 	"path/filepath"
 	"strings"
+	"syscall"
 
 	"github.com/emersion/go-webdav/internal"
 )
@@ -65,14 +66,24 @@ func fileInfoFromOS(p string, fi os.FileInfo) *FileInfo {
 	}
 }
 
-func errFromOS(err error) error {
-	// Remove path from path errors so it's not returned to the user
+// stripPaths removes paths from path errors so they're not returned to the
+// user.
+func stripPaths(err error) error {
 	var perr *fs.PathError
+	var lerr *os.LinkError
 	if errors.As(err, &perr) {
-		err = fmt.Errorf("%s: %w", perr.Op, perr.Err)
+		return fmt.Errorf("%s: %w", perr.Op, perr.Err)
+	} else if errors.As(err, &lerr) {
+		return fmt.Errorf("%s: %w", lerr.Op, lerr.Err)
 	}
+	return err
+}
 
-	if errors.Is(err, fs.ErrNotExist) {
+func errFromOS(err error) error {
+	err = stripPaths(err)
+
+	if errors.Is(err, fs.ErrNotExist) || errors.Is(err, syscall.ENOTDIR) {
+		// ENOTDIR: a parent of the resource is a regular file
 		return NewHTTPError(http.StatusNotFound, err)
 	} else if errors.Is(err, fs.ErrPermission) {
 		return NewHTTPError(http.StatusForbidden, err)
@@ -208,7 +219,7 @@ func (fs LocalFileSystem) Mkdir(ctx context.Context, name string) error {
 		return err
 	}
 	if err := os.Mkdir(p, 0755); os.IsExist(err) {
-		return NewHTTPError(http.StatusMethodNotAllowed, err)
+		return NewHTTPError(http.StatusMethodNotAllowed, stripPaths(err))
 	} else {
 		return errFromOS(err)
 	}
